@@ -1,7 +1,7 @@
 #!/bin/sh
 # usage: run_mutant.sh <prop> <mN> [check-prop]   -- applies /tmp/wt_<prop>/_mutants/<mN>.diff in that worktree and runs the check there
 P=$1; M=$2; CP=${3:-$1}
-WT=/tmp/wt_$P
+WT=${WT_PREFIX:-/tmp/wt_}$P
 git -C $WT checkout -q -- . && git -C $WT apply $WT/_mutants/$M.diff || { echo "$P $M APPLY-FAILED"; exit 2; }
 OUT=/tmp/mut_${P}_${M}_${CP}.log
 VERIF_REPO=$WT VERIF_EVIDENCE_DIR=/tmp/mut_evidence VERIF_REPLAY_DIR=/tmp/mut_replays timeout 1500 /verif/check $CP > $OUT 2>&1
